@@ -77,7 +77,11 @@ class Values:
         return r.choice(BENIGN)
 
     def lst(self, lo=1, hi=3):
-        return [self.s() for _ in range(self.rng.randint(lo, hi))]
+        out = [self.s() for _ in range(self.rng.randint(lo, hi))]
+        if len(out) < 4 and self.rng.random() < 0.15:
+            # an item given twice (equal by value, and the very same object)
+            out.append(self.rng.choice(out))
+        return out
 
 
 MATCH = [":is", ":contains", ":matches"]
